@@ -51,17 +51,30 @@ func mkDesc(a absDesc, r *rand.Rand, viaDecode bool) scte35.SegmentationDescript
 		// a previous life: the descriptor had another type and has answered questions (closing relation both ways,
 		// equality, in/out) before it is given the type it is judged with - the relation depends on the type it has now
 		prev := []int{0x33, 0x35, 0x37, 0x31, 0x11, 0x21, 0x34, 0x36, 0x45, r.Intn(256)}[r.Intn(10)]
+		prevPTS := a.PTS
 		mkSig := func(x scte35.SegmentationDescriptor) scte35.SCTE35 {
 			ps := scte35.CreateSCTE35()
 			cmd := scte35.CreateTimeSignalCommand()
 			cmd.SetHasPTS(true)
 			ps.SetCommandInfo(cmd)
-			ps.SetPTS(gots.PTS(a.PTS))
+			ps.SetPTS(gots.PTS(prevPTS))
 			ps.SetDescriptors([]scte35.SegmentationDescriptor{x})
 			return ps
 		}
 		d.SetTypeID(scte35.SegDescType(prev))
 		d.SetEventID(uint32(a.Eid))
+		if r.Intn(2) == 0 {
+			// ... and other values of everything the relations look at (event id, numbers, signal time)
+			d.SetEventID(uint32(a.Eid + 1 + r.Intn(3)))
+			d.SetSegmentNumber(uint8(1 + r.Intn(5)))
+			d.SetSegmentsExpected(uint8(1 + r.Intn(5)))
+			if prev == 0x34 || prev == 0x36 {
+				d.SetHasSubSegments(r.Intn(2) == 0)
+				d.SetSubSegmentNumber(uint8(1 + r.Intn(3)))
+				d.SetSubSegmentsExpected(uint8(1 + r.Intn(3)))
+			}
+			prevPTS = (a.PTS + uint64(r.Intn(3))) % (1 << 33)
+		}
 		ps := mkSig(d)
 		for _, ot := range []int{prev - 1, prev, prev + 1, r.Intn(256)} {
 			other := scte35.CreateSegmentationDescriptor()
